@@ -203,12 +203,17 @@ def convex_hull(
         if not util.is_shape(points, (-1, 3)):
             raise ValueError("Object must be Trimesh or (n,3) points!")
 
+    # the tolerances qhull works with grow with the largest coordinate
+    # so a small object far from the origin gets degenerate facets:
+    # run qhull on centered points and index the original ones
+    centered = points - points.mean(axis=0)
+
     try:
-        hull = ConvexHull(points, qhull_options=qhull_str)
+        hull = ConvexHull(centered, qhull_options=qhull_str)
     except QhullError:
         util.log.debug("Failed to compute convex hull: retrying with `QJ`", exc_info=True)
         # try with "joggle" enabled
-        hull = ConvexHull(points, qhull_options="QJ")
+        hull = ConvexHull(centered, qhull_options="QJ")
 
     # hull object doesn't remove unreferenced vertices
     # create a mask to re- index faces for only referenced vertices
@@ -217,8 +222,8 @@ def convex_hull(
     mask[vid] = np.arange(len(vid))
     # remove unreferenced vertices here
     faces = mask[hull.simplices].copy()
-    # rescale vertices back to original size
-    vertices = hull.points[vid].copy()
+    # take the vertices from the original points
+    vertices = points[vid].copy()
 
     if not repair:
         # create the Trimesh object for the convex hull
